@@ -11,7 +11,7 @@ from . import common as C
 from .common import L
 
 ID = "C14"
-RUNS = {"quick": 16_000, "thorough": 300_000}
+RUNS = {"quick": 12_000, "thorough": 300_000}
 BUDGET_S = {"quick": 60, "thorough": 800}
 CHUNK = 150
 RULE = ("each run grows a pool of <= 8 State objects over one generated (domain, problem) by 6-20 tape-drawn operations "
@@ -51,6 +51,19 @@ def run(ctx):
     feat["hard_numbers"] = ctx.s("cfg").chance(1, 3)
     W = C.World(ctx, feat)
     ops = ctx.s("ops")
+    g3 = None
+    if ctx.s("cfg").chance(1, 4):
+        # a numeric function of arity 4.  The library keys a grounded fluent by its name and its DISTINCT arguments, so two
+        # groundings over the same objects with different repetitions cannot live in one state (a limitation outside the
+        # claimed properties); each state therefore defines a collision-free subset of the groundings - different states
+        # define different ones
+        tys = [ty for ty in W.D["types"] if len(G.objects_of(W.D, W.objs, ty)) >= 2]
+        if tys:
+            ty = ops.pick(tys)
+            W.D["functions"]["g4"] = [ty, ty, ty, ty]
+            W.dom_text = W.dom_text_plain = G.render_domain(W.D)
+            g3 = G.objects_of(W.D, W.objs, ty)
+            ctx.probes["arity4_function"] += 1
     try:
         d, p, s_init = C.lib_world(ctx, W)
     except Exception as e:
@@ -66,6 +79,38 @@ def run(ctx):
     values = [interp.init_state(W.P)]
     for _ in range(1 + ops.draw(2)):
         values.append(random_state(ops, W))
+    if g3:
+        def with_g3(A):
+            fl = dict(A[1])
+            used = set()
+            for _ in range(1 + ops.draw(3)):
+                x, y = ops.pick(g3), ops.pick(g3)
+                if x == y:
+                    continue
+                # shapes the library can represent (repeated arguments first, grouped): x x y y / x x x y / x x x x
+                args = [(x, x, y, y), (x, x, x, y), (x, x, x, x)][ops.draw(3)]
+                key = tuple(dict.fromkeys(args))  # the library's dictionary key: distinct arguments in order
+                if key in used:
+                    continue
+                used.add(key)
+                fl[("g4",) + args] = ops.pick([7.0, 7.0, -1.5])
+            return (A[0], fl)
+        def twin(A):
+            """the same state except that ONE grounding of g4 is replaced by another grounding over the same distinct
+            objects (x x y y <-> x x x y): a different value that only a reader of the full argument list can tell"""
+            ks = sorted(k for k in A[1] if k[0] == "g4" and len(set(k[1:])) == 2)
+            if not ks:
+                return None
+            k = ops.pick(ks)
+            x, y = list(dict.fromkeys(k[1:]))
+            other = ("g4", x, x, x, y) if k[1:] == (x, x, y, y) else ("g4", x, x, y, y)
+            fl = dict(A[1])
+            v = fl.pop(k)
+            fl[other] = v
+            return (A[0], fl)
+
+        values = [values[0]] + [with_g3(v) for v in values[1:]] + [with_g3(values[0]), with_g3(values[0])]
+        values += [tw for tw in (twin(v) for v in list(values)) if tw is not None]
 
     def add(st, A, route):
         pool.append([st, A, route])
